@@ -11,6 +11,7 @@ package jsonschema
 // ---------------------------------------------------------------------------
 
 //@ globalinv jsonPointerEscaper != nil && jsonPointerUnescaper != nil
+//@ globalinv[C17] ReplSpec[jsonPointerUnescaper] == pairs4("~0", "~", "~1", "/") && ReplSpec[jsonPointerEscaper] == pairs4("~", "~0", "/", "~1")
 //@ globalinv disallowedPrefixRegexp != nil
 //@ globalinv initialSchemaMap != nil
 //@ globalinv schemaFieldMap != nil
@@ -299,9 +300,23 @@ package jsonschema
 // json_pointer.go
 // ---------------------------------------------------------------------------
 
+// parseJSONPointer (property C17): the segments are exactly the "/"-separated pieces after the leading slash,
+// each unescaped per RFC 6901, and nothing else is done to them (in particular no percent-decoding: the fragment
+// was already decoded once by net/url).
+//@ contract unescapeJSONPointerSegment(s)
+//@   pure
+//@   ensures[C17] def: result == jpUnescape(s)
+
 //@ contract parseJSONPointer(ptr)
 //@   pure
 //@   ensures result1 == nil ==> newOrNil(result0)
+//@   ensures[C17] empty: ptr == "" ==> result1 == nil && len(result0) == 0
+//@   ensures[C17] lead: ptr != "" && !prefixof("/", ptr) ==> result1 != nil
+//@   ensures[C17] ok: ptr != "" && prefixof("/", ptr) ==> result1 == nil
+//@   ensures[C17] count: ptr != "" && result1 == nil ==> len(result0) == splitN(substr(ptr, 1, len(ptr) - 1), "/")
+//@   ensures[C17] segs: ptr != "" && result1 == nil ==> new(result0) && (forall i int {result0[i]} :: 0 <= i && i < len(result0) ==> result0[i] == jpUnescape(splitAt(substr(ptr, 1, len(ptr) - 1), "/", i)))
+//@   loop "range segments"
+//@     invariant[C17] done: new(segments) && len(segments) == splitN(substr(ptr, 1, len(ptr) - 1), "/") && (forall j int {segments[j]} :: 0 <= j && j <= $idx ==> segments[j] == jpUnescape(splitAt(substr(ptr, 1, len(ptr) - 1), "/", j))) && (forall j int {segments[j]} :: $idx < j && j < len(segments) ==> segments[j] == splitAt(substr(ptr, 1, len(ptr) - 1), "/", j))
 
 //@ contract lookupSchemaField(v, name)
 //@   pure
